@@ -174,13 +174,19 @@ def far_tokens(toks: List[list], sign: int) -> List[list]:
     if not toks or toks[0][0] != "sptensor":
         return toks
     out = [list(t) for t in toks]
+    # (total on ill-formed files: a token that is missing or is not an integer is left for the specification to reject)
+    if len(out) < 3 or out[1][0] != "int":
+        return out
     n = out[1][1]
-    if n < 1:
+    if n < 1 or len(out) < 3 + n or out[2][0] != "int" or out[2 + n][0] != "int":
         return out
     out[2][1] += sign * FAR
     nz = out[2 + n][1]
     for k in range(nz):
-        out[3 + n + k * (n + 1)][1] += sign * FAR
+        j = 3 + n + k * (n + 1)
+        if j >= len(out) or out[j][0] != "int":
+            break
+        out[j][1] += sign * FAR
     return out
 
 
